@@ -54,9 +54,9 @@ CLAIMED["C10"] = ("full on the model", "6/C10", "Lean 4 proof on the code-genera
   "if_true, if_false, if_undefined, if_error_propagates, for_unrolls, for_empty, iteration_shape, for_count_*. Tie: model vs real assembler on generated programs; twin = .if replaced by the selected branch, .for by one block per iteration; hand-written families (zero / non-zero / negative / undefined conditions with and without else, empty / single / many iterations, bounds from constants and macro parameters, nested loops, labels in bodies).",
   "Loop counts are bounded by the generator; Python's recursion limit is modelled by a nesting budget of 400.")
 
-CLAIMED["C15"] = ("partial: every scanner loop proved terminating; parser fuel sufficiency and the composition over all scanner states by stream only", "6/C15", "Lean 4 proof that the fuel of every hand-written loop of the scanner model suffices (induction on the remaining input; the model returns OUT-OF-FUEL exactly where the Python loop would not terminate), plus termination of the table encoder, the IPS writer and the nesting-bounded code generator; differential correspondence under a per-input watchdog",
-  "acceptRun_terminates + acceptRun_sites (all call sites, incl. the negated \\n\\0 run), lineComment_terminates, blockComment_terminates, quoted_terminates, scanLoop_progress / scanLoop_no_progress_raises (the outer loop never repeats a state), gen_budget_exhausted, ipsWrite_fuel, C18.toBytes_fuel. Tie: S7 (exhaustive short strings, lexeme sequences, mutants of samples and generated programs, both lexing states), S6 (token sequences exhaustively to length 2/3 and random to 30), S4 (mutants, recursive macros, self-including files, degenerate loops) — the real code must return within the watchdog, and agree with the model, which never answers OUT-OF-FUEL.",
-  "Time bounds are not proved; Python's recursion limit and open-file limit are modelled by a nesting budget (outcomes are compared as rejected/accepted there).")
+CLAIMED["C15"] = ("full for the scanner (scan_terminates, every input and both lexing states); parser fuel sufficiency by stream only", "6/C15", "Lean 4 proof: a post-condition (same input, pos never decreases, no loop out of fuel, a return with pos unchanged emitted nothing) is proved for every scanner primitive and every state function and composed along the do-blocks of the model into scan_terminates (the model returns OUT-OF-FUEL exactly where the Python loop would not terminate); termination of the table encoder and the IPS split loop; differential correspondence under a watchdog",
+  "scan_terminates (for every configuration, both initial states and every text, Scanner.scan returns tokens or raises a ScannerException; at most len(input) state calls), state_call_progress / state_call_no_fuel, acceptRun_terminates + acceptRun_sites (all call sites, incl. the negated \\n\\0 run), lineComment_terminates, blockComment_terminates, quoted_terminates, scanLoop_progress / scanLoop_no_progress_raises, gen_budget_exhausted, ipsWrite_fuel, C18.toBytes_fuel. Tie: S7 (exhaustive short strings, lexeme sequences, mutants of samples and generated programs, both lexing states, real scanner under a watchdog vs the model), S6 (token sequences through the real parser under a watchdog), S4 (whole pipeline: recursive macros, self-including files, loops, unterminated constructs).",
+  "Parser fuel sufficiency is not yet a theorem (stream S6). Time bounds beyond the iteration count of the outer scanner loop are not proved; Python's recursion limit and open-file limit are modelled by a nesting budget (outcomes are compared as rejected/accepted there).")
 
 CLAIMED["C17"] = ("partial: bookkeeping invariant and position theorem for the scanner primitives, NodeError line; composition over all scanner states by stream", "6/C17", "Lean 4 proof (invariant of next(): line number = newlines before pos, line offset = index after the last one; emitted / raised positions = true (line, column) of the token start; prefix-independence; NodeError carries the statement's file_info) + whole-pipeline correspondence of error reports + error-insertion oracle on the real assembler",
   "next_inv, init_inv, position_is_truePos, emit_position, err_position, truePos_prefix, node_error_line, data_error_line. Tie: whole-pipeline model vs real assembler on (file, line, column, quoted line) of every report; oracle: an erroneous statement inserted at line positions of generated programs (main and included file, after comment / blank / block / macro / multi-line-comment prefixes) must be reported at its own file, line, column and text.",
